@@ -8,13 +8,13 @@ LEVEL = "exploration"
 RULE = ("traced runs of both front ends: W 1..6 (odd and even), N 1..4, K 2..6, lengths from minimal upward, 1..6 unequal series incl. one "
         "of exactly W rows, list/tuple/generator inputs; non-trivial = completed run with W>=2 (a margin exists); distinct by case hash")
 ASSUMPTIONS = ["only completed runs decide; refused runs are counted by exception class"]
-SHARD_TIMEOUT = {"quick": 900, "thorough": 3400}
+SHARD_TIMEOUT = {"quick": 300, "thorough": 3400}
 MIX = {"single:small": 3, "single:general": 2, "joint:joint": 4, "joint:general": 1}
 PROPS = ("C04",)
 
 
 def plan(tier, seed):
-    specs = ec.plan_e2e(seed, 4, MIX, 200 if tier == "quick" else 2000, nwcap=12 if tier == "quick" else 24)
+    specs = ec.plan_e2e(seed, 4, MIX, 150 if tier == "quick" else 2000, nwcap=12 if tier == "quick" else 24)
     if tier == "thorough":
         specs += ec.fixture_specs()
     for p in range(2 if tier == "quick" else 6):
